@@ -96,3 +96,81 @@ Theorem C10_tag_key_is_not_an_extra :
     assoc d' (tg_name c) = None /\ forall k, k <> tg_name c -> assoc d' k = assoc d k.
 Proof. intros. eapply tag_key_is_not_an_extra; eassumption. Qed.
 Print Assumptions C10_tag_key_is_not_an_extra.
+
+(* ---- TypedDicts (gen/typeddicts.py), no overrides ----
+   With forbid_extra_keys, for EVERY TypedDict definition, handlers and dict payload, in BOTH templates:
+   (1) whatever is accepted has no key outside the declared ones;
+   (2) a payload that is otherwise fine and has undeclared keys is rejected, and the error names exactly
+       those keys, in payload order -- ForbiddenExtraKeysError in the fast template, the same error as the
+       only member of the ClassValidationError group in the detailed one. *)
+From V.Model Require Import TdTemplates.
+From V.Proofs Require Import TdProofs.
+Theorem C10_typeddict_forbid_accepts_only_declared_keys :
+  forall (V : Type) (opt : tdopts) (hs : N -> V -> result V) (d : list (N * V)) (fs : list tdfield) r,
+    NoDup (keys d) -> td_forbid opt = true ->
+    (to_opt (td_detailed V opt (fun _ => neutral) hs fs (dict_obj d)) = Some r \/
+     to_opt (td_fast V opt (fun _ => neutral) hs fs (dict_obj d)) = Some r) ->
+    forall k, In k (keys d) -> In k (map d_name fs).
+Proof.
+  intros V opt hs d fs r Hnd Hf H.
+  rewrite (td_detailed_refines_spec V opt hs d Hnd fs), (td_fast_refines_spec V opt hs d Hnd fs) in H.
+  assert (exists r', td_spec V opt hs d fs = Some r') as [r' Hs].
+  { destruct (td_spec V opt hs d fs) as [x|]; [now exists x | destruct H as [H|H]; discriminate H]. }
+  exact (td_spec_forbid V opt hs d fs r' Hf Hs).
+Qed.
+Print Assumptions C10_typeddict_forbid_accepts_only_declared_keys.
+
+Theorem C10_typeddict_forbid_names_exactly_the_extras :
+  forall (V : Type) (opt : tdopts) (hs : N -> V -> result V) (d : list (N * V)) (fs : list tdfield),
+    NoDup (keys d) -> td_forbid opt = true ->
+    forallb (tgood V hs d) fs = true ->       (* every declared key is fine: required ones present, handlers succeed *)
+    let extras := filter (fun k => negb (mem_N k (map d_name fs))) (keys d) in
+    extras <> [] ->
+    td_fast V opt (fun _ => neutral) hs fs (dict_obj d) = Err (EForbidden (td_cl opt) extras) /\
+    td_detailed V opt (fun _ => neutral) hs fs (dict_obj d) = Err (EClassVal (td_cl opt) [(None, EForbidden (td_cl opt) extras)]).
+Proof.
+  intros V opt hs d fs Hnd Hf Hg extras Hne.
+  assert (Hu : td_unknown (fun _ => neutral) fs (keys d) = extras).
+  { unfold td_unknown, td_allowed, extras. now rewrite td_included_all. }
+  split.
+  - exact (td_fast_forbid_error V opt hs d Hnd fs extras Hf Hg Hu Hne).
+  - exact (td_detailed_forbid_error V opt hs d Hnd fs extras Hf Hg Hu Hne).
+Qed.
+Print Assumptions C10_typeddict_forbid_names_exactly_the_extras.
+
+(* "With it disabled, adding unknown keys to a payload never changes the outcome" is REFUTED for
+   TypedDicts: the result is built from a copy of the payload, so an undeclared key survives into it
+   (finding F4, open).  The general fact behind the witness: an accepted TypedDict payload keeps all of
+   its keys, in place. *)
+Theorem C10_typeddict_result_keeps_every_key :
+  forall (V : Type) (opt : tdopts) (hs : N -> V -> result V) (d : list (N * V)) (fs : list tdfield) r,
+    NoDup (keys d) ->
+    to_opt (td_fast V opt (fun _ => neutral) hs fs (dict_obj d)) = Some (Some r) -> keys r = keys d.
+Proof.
+  intros V opt hs d fs r Hnd H. rewrite (td_fast_refines_spec V opt hs d Hnd fs) in H.
+  destruct (td_spec V opt hs d fs) as [x|] eqn:Hs; [|discriminate]. injection H as <-.
+  exact (td_spec_keys V opt hs d fs x Hs).
+Qed.
+Print Assumptions C10_typeddict_result_keeps_every_key.
+
+Local Open Scope N_scope.
+Theorem C10_typeddict_unknown_keys_change_outcome_refuted :
+  exists (opt : tdopts) (hs : N -> N -> result N) (fs : list tdfield) (d extra : list (N * N)),
+    td_forbid opt = false /\ (forall k, In k (keys extra) -> ~ In k (map d_name fs)) /\
+    td_fast N opt (fun _ => neutral) hs fs (dict_obj (d ++ extra)) <> td_fast N opt (fun _ => neutral) hs fs (dict_obj d).
+Proof.
+  exists {| td_cl := 1; td_forbid := false; td_skip_self_rename := true |}, (fun _ v => Ok v),
+         [{| d_name := 1; d_required := true |}], [(1, 5)], [(7, 9)].
+  split; [reflexivity|]. split.
+  - intros k [<-|[]] [H|[]]. discriminate H.
+  - vm_compute. discriminate.
+Qed.
+Print Assumptions C10_typeddict_unknown_keys_change_outcome_refuted.
+
+Example C10_typeddict_nonvacuous :
+  let opt := {| td_cl := 4; td_forbid := true; td_skip_self_rename := true |} in
+  let fs := [{| d_name := 1; d_required := true |}; {| d_name := 2; d_required := false |}] in
+  td_fast N opt (fun _ => neutral) (fun _ v => Ok (v + 100)) fs (dict_obj [(8, 0); (1, 5); (7, 9)]) = Err (EForbidden 4 [8; 7])
+  /\ td_detailed N opt (fun _ => neutral) (fun _ v => Ok (v + 100)) fs (dict_obj [(8, 0); (1, 5); (7, 9)]) = Err (EClassVal 4 [(None, EForbidden 4 [8; 7])])
+  /\ td_fast N opt (fun _ => neutral) (fun _ v => Ok (v + 100)) fs (dict_obj [(1, 5)]) = Ok (Some [(1, 105)]).
+Proof. vm_compute. repeat split. Qed.
